@@ -56,6 +56,7 @@ MCInit ==
          /\ rv = [p \in Recorders |-> 0] /\ rep = [p \in Recorders |-> 0]
          /\ dpc = [d \in Drainers |-> "idle"] /\ dop = [d \in Drainers |-> "none"]
          /\ todo = [d \in Drainers |-> {}] /\ csnap = [d \in Drainers |-> EF] /\ gsnap = [d \in Drainers |-> EF]
+         /\ buf = [d \in Drainers |-> EF] /\ nbeg = [d \in Drainers |-> EF] /\ bounded = TRUE
          /\ desc = EF /\ dfirst = EF /\ out = {}
          /\ upd = [d \in Drainers |-> FALSE] /\ pclean = FALSE /\ twiceOK = TRUE /\ faithful = TRUE
 
@@ -90,10 +91,11 @@ MDNull      == ~Sequential /\ \E d \in Drainers : DNull(d) /\ Same
 MDDetach    == ~Sequential /\ \E d \in Drainers, k \in HK : DDetach(d, k) /\ Same
 MDQok       == ~Sequential /\ \E d \in Drainers : DQok(d) /\ Same
 MDDeliver   == ~Sequential /\ \E d \in Drainers : DDeliver(d) /\ Same
+MDFold      == ~Sequential /\ \E d \in Drainers : DFold(d) /\ Same
 MDEnd       == ~Sequential /\ \E d \in Drainers : DEnd(d) /\ Same
 
 MCNext == \/ MRegisterC \/ MRegisterG \/ MRegisterH \/ MInc \/ MAbs \/ MSet \/ MIncG \/ MDecG \/ MRecord \/ MDescribe \/ MUpkeep \/ MRender
-          \/ MRFix \/ MRClaimIn \/ MRClaimLost \/ MIncC \/ MDBegin \/ MDNull \/ MDDetach \/ MDQok \/ MDDeliver \/ MDEnd
+          \/ MRFix \/ MRClaimIn \/ MRClaimLost \/ MIncC \/ MDBegin \/ MDNull \/ MDDetach \/ MDQok \/ MDDeliver \/ MDFold \/ MDEnd
 MCSpec == MCInit /\ [][MCNext]_mvars
 
 \* at the end of a concurrent run (everything finished) a last render is complete
